@@ -57,9 +57,10 @@ Gate(text) == [k |-> "Gate", text |-> text]
 Cals == << [head |-> "X 0",    body |-> <<P0a, NP0b>>],
            [head |-> "CZ 0 1", body |-> <<Fn0, NP01c, D0a>>],
            [head |-> "Y 0",    body |-> <<Gate("X 0"), Sh0a>>],        \* nested
-           [head |-> "I 1",    body |-> <<>>] >>                        \* expands to nothing
-Gates == {Gate("X 0"), Gate("CZ 0 1"), Gate("Y 0"), Gate("I 1"), Gate("H 0")}     \* H 0 has no calibration
-CalSel == Gates \cup {P1a, NP01c, D0a, FnAll, Sh0a, NC1a}
+           [head |-> "I 1",    body |-> <<>>],                          \* expands to nothing
+           [head |-> "W 0 1",  body |-> <<NP0b, NC1a>>] >>              \* after DELAY 0 3 its first pulse starts later than its second
+Gates == {Gate("X 0"), Gate("CZ 0 1"), Gate("Y 0"), Gate("I 1"), Gate("W 0 1"), Gate("H 0")}     \* H 0 has no calibration
+CalSel == Gates \cup {P1a, NP01c, D0a, D0, FnAll, Sh0a, NC1a}
 
 CalOf(text) == {n \in DOMAIN Cals : Cals[n].head = text}
 RECURSIVE ExpandI(_, _)
